@@ -242,7 +242,20 @@ impl Engine for ReaderEngine {
         let frag_mode = if fault_free { 0 } else { rng.below(3) }; // 0 full, 1 random, 2 one byte
         let post_seek_bias = !fault_free && rng.coin();
         let nframes = 1 + rng.below(2) as usize;
-        let frames: Vec<Vec<u8>> = (0..nframes).map(|_| gen_frame(rng)).collect();
+        let mut frames: Vec<Vec<u8>> = (0..nframes).map(|_| gen_frame(rng)).collect();
+        if frames.len() == 2 && rng.chance(0.3) && !frames[0].is_empty() {
+            // B shares a prefix with A (state keyed by the first bytes of a frame must not leak)
+            let mut b = frames[0].clone();
+            let n = b.len();
+            let k = 1 + rng.usize_below(n);
+            for x in b.iter_mut().skip(k) {
+                *x = rng.next_u64() as u8;
+            }
+            if k == n {
+                b[n - 1] ^= 1 << rng.below(8);
+            }
+            frames[1] = b;
+        }
         let order: Vec<usize> = match (nframes, rng.below(4)) {
             (1, 0) => vec![0, 0],
             (1, _) => vec![0],
